@@ -374,34 +374,50 @@ func (c *ctx) c09Doerner() {
 }
 
 func (c *ctx) c09ProofReplay() {
-	ids := idsOf("alice", "bob", "carl")
-	det := installDetReader(31, 0)
-	defer restoreRandReader()
-	sp := specFrostKeygen(ids, 1, false, []byte("pr"))
-	s := sp.build(rand.New(rand.NewSource(1)), det)
-	// bob's round-2 broadcast to carl is replaced by alice's (proof and commitment made by/for alice)
-	var aliceB *protocol.Message
-	for _, e := range s.Flight {
-		if e.Msg.From == "alice" && e.Msg.Broadcast {
-			aliceB = e.Msg
+	// short identifiers, identifiers of exactly 32 bytes, and longer ones
+	for _, setName := range []string{"names", "long32", "long40", "nonascii"} {
+		ids := idsOf(idSets[setName][:3]...)
+		alice, bob, carl := ids[0], ids[1], ids[2]
+		det := installDetReader(31, 0)
+		sp := specFrostKeygen(ids, 1, false, []byte("pr"))
+		s := sp.build(rand.New(rand.NewSource(1)), det)
+		// bob's round-2 broadcast to carl is replaced by alice's (proof and commitment made by/for alice)
+		var aliceB *protocol.Message
+		for _, e := range s.Flight {
+			if e.Msg.From == alice && e.Msg.Broadcast {
+				aliceB = e.Msg
+			}
 		}
-	}
-	if aliceB == nil {
-		return
-	}
-	for _, e := range s.Flight {
-		if e.Msg.From == "bob" && e.To == "carl" && e.Msg.Broadcast {
-			m := *aliceB
-			m.From = "bob"
-			e.Msg = &m
-			e.Valid = false
+		if aliceB != nil {
+			for _, e := range s.Flight {
+				if e.Msg.From == bob && e.To == carl && e.Msg.Broadcast {
+					m := *aliceB
+					m.From = bob
+					e.Msg = &m
+					e.Valid = false
+				}
+			}
+			// deliver the replayed broadcast first: carl is in round 2 and verifies it on arrival
+			accepted := false
+			for i, e := range s.Flight {
+				if e.To == carl && !e.Valid {
+					o := s.Deliver(s.take(i))
+					accepted = o.Class != 2 && o.Panic == ""
+					break
+				}
+			}
+			s.RunFIFO(10000)
+			r, _ := resultOf(s.Nodes[carl])
+			c.res.Case("proof-replay/frost-keygen/"+setName, "proof-replay/"+setName, true)
+			if accepted {
+				c.res.Violate("property", "C09/proof-replay/frost-keygen/verified/ids="+setName, "a proof made by one party verified under another party's name",
+					c09Replay{What: "proof replay under another sender's name", Detail: fmt.Sprintf("ids %q: the round-2 broadcast (Schnorr proof of knowledge, commitment) of %q delivered to %q as coming from %q was not rejected on arrival", ids, alice, carl, bob)})
+			}
+			if r != nil {
+				c.res.Violate("property", "C09/proof-replay/frost-keygen/ids="+setName, "a proof-carrying broadcast of one party replayed under another party's name was accepted",
+					c09Replay{What: "proof replay under another sender's name", Detail: fmt.Sprintf("ids %q: the round-2 broadcast (Schnorr proof, commitment) of %q delivered to %q as coming from %q; %q completed", ids, alice, carl, bob, carl)})
+			}
 		}
-	}
-	s.RunFIFO(10000)
-	r, _ := resultOf(s.Nodes["carl"])
-	c.res.Case("proof-replay/frost-keygen", "proof-replay", true)
-	if r != nil {
-		c.res.Violate("property", "C09/proof-replay/frost-keygen", "a proof-carrying broadcast of alice replayed under bob's name was accepted by carl",
-			c09Replay{What: "proof replay under another sender's name"})
+		restoreRandReader()
 	}
 }
